@@ -946,6 +946,137 @@ theorem lens_power_of_model (s : Setup) (focal : RegGrid) {δx δy Δx Δy zx zy
   rw [h2, h3] at hm
   exact hm
 
+/-- **The executable selection is total on 2-D regular grids and never returns `naive`**: the hypothesis `hm` of the
+`_of_model` theorems can always be met, and the FFT is returned only when `classify ≠ other` and the planner
+prefers it. -/
+theorem lensMethod_some (s : Setup) (focal : RegGrid) {δx δy Δx Δy zx zy Zx Zy : ℚ} {Nx Ny Mox Moy : ℕ}
+    (hp : s.pupil = ⟨[δx, δy], [Nx, Ny], [zx, zy]⟩) (hf : focal = ⟨[Δx, Δy], [Mox, Moy], [Zx, Zy]⟩) (cheaper : Bool) :
+    lensMethod s focal cheaper
+      = some (if (classify s focal).1 ≠ .other ∧ cheaper = true then Method.fft else Method.mft) := by
+  have h2 : s.pupil.ndim = 2 := by rw [hp]; rfl
+  have h3 : focal.ndim = 2 := by rw [hf]; rfl
+  unfold lensMethod
+  rw [h2, h3]
+  cases hc : (classify s focal).1 <;> cases cheaper <;>
+    simp [Fft.choose, detectFix, detectLit, GridDesc.isRegular, GridDesc.isSeparated]
+
+/-- **Backward through the executed pipeline from the executable classification** (`λ f > 0`, positive focal
+spacings): the adjoint Fourier integral. -/
+theorem lens_backward_eq_adjoint_integral_of_model (s : Setup) (focal : RegGrid) {δx δy Δx Δy zx zy Zx Zy : ℚ}
+    {Nx Ny Mox Moy : ℕ} (hp : s.pupil = ⟨[δx, δy], [Nx, Ny], [zx, zy]⟩)
+    (hf : focal = ⟨[Δx, Δy], [Mox, Moy], [Zx, Zy]⟩) (hlf : 0 < lamf s) (hΔy : 0 < Δy) (hΔx : 0 < Δx)
+    (cheaper emu : Bool) (m : Method) (hm : lensMethod s focal cheaper = some m) (Mx My : ℕ)
+    (hM : (classify s focal).1 ≠ .other → (classify s focal).2 = [Mx, My])
+    (G : Fin Moy × Fin Mox → ℂ) (j : Fin Ny × Fin Nx) :
+    lensBackward expT expE (starRingEnd ℂ) (2 * Real.pi) Complex.ofReal (fun r => |r|)
+        (normFactorC (s.lam : ℝ) (s.f : ℝ)) m emu
+        (axOf (axisR Ny δy zy)) (axOf (axisR Nx δx zx)) (axOf (axisR Moy Δy Zy)) (axOf (axisR Mox Δx Zx))
+        ((s.lam : ℝ) * (s.f : ℝ)) My Mx (ext2 G) j.1 j.2
+      = I / (((s.lam : ℝ) : ℂ) * ((s.f : ℝ) : ℂ))
+        * ∑ k : Fin Moy × Fin Mox, G k * (((Δy : ℝ) * (Δx : ℝ) : ℝ) : ℂ)
+            * cexp (2 * (Real.pi : ℂ) * I * ((dot ![(axisR Mox Δx Zx).x k.2, (axisR Moy Δy Zy).x k.1]
+                  ![(axisR Nx δx zx).x j.2, (axisR Ny δy zy).x j.1] : ℝ) : ℂ)
+                / (((s.lam : ℝ) : ℂ) * ((s.f : ℝ) : ℂ))) := by
+  have hcast : ((lamf s : ℚ) : ℝ) = (s.lam : ℝ) * (s.f : ℝ) := by unfold lamf; push_cast; rfl
+  have hpos : 0 < (s.lam : ℝ) * (s.f : ℝ) := by rw [← hcast]; exact_mod_cast hlf
+  apply lens_backward_eq_adjoint_integral (axisR Ny δy zy) (axisR Nx δx zx) (axisR Moy Δy Zy) (axisR Mox Δx Zx)
+    (s.lam : ℝ) (s.f : ℝ) My Mx emu ((classify s focal).1 != FocalClass.other) cheaper m ?_ ?_ hpos
+    (by show (0 : ℝ) < ((Δy : ℚ) : ℝ); exact_mod_cast hΔy) (by show (0 : ℝ) < ((Δx : ℚ) : ℝ); exact_mod_cast hΔx)
+  · have h2 : s.pupil.ndim = 2 := by rw [hp]; rfl
+    have h3 : focal.ndim = 2 := by rw [hf]; rfl
+    unfold lensMethod at hm
+    rw [h2, h3] at hm
+    exact hm
+  · intro hnum
+    have hne : (classify s focal).1 ≠ .other := by simpa using hnum
+    obtain ⟨Mx', My', hMs, ⟨hNx, hMox, hx⟩, ⟨hNy, hMoy, hy⟩⟩ := classify_native_2d hp hf hne
+    have := hM hne
+    rw [hMs] at this
+    simp only [List.cons.injEq, and_true] at this
+    obtain ⟨rfl, rfl⟩ := this
+    rw [← hcast]
+    exact ⟨by exact_mod_cast hlf.ne', nativeAxis_cast hNy hMoy hy, nativeAxis_cast hNx hMox hx⟩
+
+/-- **Backward after forward restores the field when `classify` says `full`** (positive focal spacings). -/
+theorem lens_inverse_of_model (s : Setup) (focal : RegGrid) {δx δy Δx Δy zx zy Zx Zy : ℚ}
+    {Nx Ny Mox Moy : ℕ} {Ms : List ℕ} (hp : s.pupil = ⟨[δx, δy], [Nx, Ny], [zx, zy]⟩)
+    (hf : focal = ⟨[Δx, Δy], [Mox, Moy], [Zx, Zy]⟩) (hlf : lamf s ≠ 0) (hΔy : 0 < Δy) (hΔx : 0 < Δx)
+    (hfull : classify s focal = (.full, Ms))
+    (cheaper emu : Bool) (m : Method) (hm : lensMethod s focal cheaper = some m) (E : Fin Ny × Fin Nx → ℂ)
+    (j : Fin Ny × Fin Nx) :
+    lensBackward expT expE (starRingEnd ℂ) (2 * Real.pi) Complex.ofReal (fun r => |r|)
+        (normFactorC (s.lam : ℝ) (s.f : ℝ)) m emu
+        (axOf (axisR Ny δy zy)) (axOf (axisR Nx δx zx)) (axOf (axisR Moy Δy Zy)) (axOf (axisR Mox Δx Zx))
+        ((s.lam : ℝ) * (s.f : ℝ)) Moy Mox
+        (ext2 fun k : Fin Moy × Fin Mox =>
+          lensForward expT expE (2 * Real.pi) Complex.ofReal (normFactorC (s.lam : ℝ) (s.f : ℝ)) m emu
+            (axOf (axisR Ny δy zy)) (axOf (axisR Nx δx zx)) (axOf (axisR Moy Δy Zy)) (axOf (axisR Mox Δx Zx))
+            ((s.lam : ℝ) * (s.f : ℝ)) Moy Mox (ext2 E) k.1 k.2) j.1 j.2
+      = E j := by
+  have hcast : ((lamf s : ℚ) : ℝ) = (s.lam : ℝ) * (s.f : ℝ) := by unfold lamf; push_cast; rfl
+  have hF := fullAt_of_classify hp hf hfull hlf
+  rw [hcast] at hF
+  apply lens_inverse (axisR Ny δy zy) (axisR Nx δx zx) (axisR Moy Δy Zy) (axisR Mox Δx Zx) (s.lam : ℝ)
+    (s.f : ℝ) Moy Mox emu ((classify s focal).1 != FocalClass.other) cheaper m ?_ (fun _ => ⟨hF.1, hF.2.1, hF.2.2⟩)
+    (by show (0 : ℝ) < ((Δy : ℚ) : ℝ); exact_mod_cast hΔy) (by show (0 : ℝ) < ((Δx : ℚ) : ℝ); exact_mod_cast hΔx) hF
+  have h2 : s.pupil.ndim = 2 := by rw [hp]; rfl
+  have h3 : focal.ndim = 2 := by rw [hf]; rfl
+  unfold lensMethod at hm
+  rw [h2, h3] at hm
+  exact hm
+
+/-- **The two executable ties agree, proved**: the executed pipeline on the unit impulse at pupil sample `j` is the
+executable `impulseResponse` (the exact amplitude / turns pair the driver returns for `impulse-idx` and the harness
+compares with the running code). -/
+theorem lens_forward_impulse_eq_impulseResponse (s : Setup) (focal : RegGrid) {δx δy Δx Δy zx zy Zx Zy : ℚ}
+    {Nx Ny Mox Moy : ℕ} (hp : s.pupil = ⟨[δx, δy], [Nx, Ny], [zx, zy]⟩)
+    (hf : focal = ⟨[Δx, Δy], [Mox, Moy], [Zx, Zy]⟩) (hlf : lamf s ≠ 0) (hδx : 0 < δx) (hδy : 0 < δy)
+    (cheaper emu : Bool) (m : Method) (hm : lensMethod s focal cheaper = some m) (Mx My : ℕ)
+    (hM : (classify s focal).1 ≠ .other → (classify s focal).2 = [Mx, My])
+    (j : Fin Ny × Fin Nx) (k : Fin Moy × Fin Mox) :
+    lensForward expT expE (2 * Real.pi) Complex.ofReal (normFactorC (s.lam : ℝ) (s.f : ℝ)) m emu
+        (axOf (axisR Ny δy zy)) (axOf (axisR Nx δx zx)) (axOf (axisR Moy Δy Zy)) (axOf (axisR Mox Δx Zx))
+        ((s.lam : ℝ) * (s.f : ℝ)) My Mx (ext2 (Pi.single j 1)) k.1 k.2
+      = ((((impulseResponse s s.pupil.weight (focal.point [k.2, k.1]) (s.pupil.point [j.2, j.1])).1 : ℚ) : ℝ) : ℂ)
+        * expT (((impulseResponse s s.pupil.weight (focal.point [k.2, k.1]) (s.pupil.point [j.2, j.1])).2 : ℚ) : ℝ) := by
+  rw [lens_forward_eq_integral_of_model s focal hp hf hlf cheaper emu m hm Mx My hM]
+  rw [Finset.sum_eq_single j (by
+    intro b _ hb
+    rw [Pi.single_eq_of_ne hb]; ring) (by intro h; exact absurd (Finset.mem_univ j) h)]
+  rw [Pi.single_eq_same]
+  unfold impulseResponse
+  simp only
+  rw [expT_frac]
+  have hw : s.pupil.weight = δx * δy := by
+    rw [hp]; simp [RegGrid.weight, prodRat, ratAbs_of_pos hδx, ratAbs_of_pos hδy]
+  have hkt : ((kernelTurns s (focal.point [(k.2 : ℕ), (k.1 : ℕ)]) (s.pupil.point [(j.2 : ℕ), (j.1 : ℕ)]) : ℚ) : ℝ)
+      = -(dot ![(axisR Mox Δx Zx).x k.2, (axisR Moy Δy Zy).x k.1] ![(axisR Nx δx zx).x j.2, (axisR Ny δy zy).x j.1])
+          / ((s.lam : ℝ) * (s.f : ℝ)) := by
+    rw [hp, hf]
+    simp only [kernelTurns, RegGrid.point, List.zip_cons_cons, List.zip_nil_right, List.map_cons, List.map_nil, dotRat,
+      dot, Fin.sum_univ_two, Matrix.cons_val_zero, Matrix.cons_val_one, RegAxis.x, axisR, lamf]
+    push_cast
+    ring
+  have hadd : (((-(1 / 4 : ℚ) + kernelTurns s (focal.point [(k.2 : ℕ), (k.1 : ℕ)]) (s.pupil.point [(j.2 : ℕ), (j.1 : ℕ)]) : ℚ)) : ℝ)
+      = -(1 / 4) + ((kernelTurns s (focal.point [(k.2 : ℕ), (k.1 : ℕ)]) (s.pupil.point [(j.2 : ℕ), (j.1 : ℕ)]) : ℚ) : ℝ) := by
+    push_cast; ring
+  rw [hadd, expT_isChar.add, expT_neg_quarter, hkt, hw]
+  have hab : ((s.lam : ℚ) : ℂ) * ((s.f : ℚ) : ℂ) ≠ 0 := by
+    have : ((lamf s : ℚ) : ℂ) ≠ 0 := by exact_mod_cast hlf
+    unfold lamf at this
+    push_cast at this
+    exact this
+  have hI : 1 / (I * ((s.lam : ℚ) : ℂ) * ((s.f : ℚ) : ℂ)) = -I / (((s.lam : ℚ) : ℂ) * ((s.f : ℚ) : ℂ)) := by
+    rw [div_eq_div_iff (by rw [mul_assoc]; exact mul_ne_zero Complex.I_ne_zero hab) hab]
+    linear_combination (((s.lam : ℚ) : ℂ) * ((s.f : ℚ) : ℂ)) * Complex.I_mul_I
+  have harg : ∀ D : ℂ, -(2 * (Real.pi : ℂ) * I * D) / (((s.lam : ℚ) : ℂ) * ((s.f : ℚ) : ℂ))
+      = 2 * (Real.pi : ℂ) * (-D / (((s.lam : ℚ) : ℂ) * ((s.f : ℚ) : ℂ))) * I := by
+    intro D; ring
+  unfold expT lamf
+  push_cast
+  rw [harg, hI]
+  ring
+
 /-- **The executable `powerGain` (the number the harness compares with the measured power ratio of the running code)
 is exactly `1` on every focal grid `classify` calls `full`** — any signs of the spacings, `λ f ≠ 0`. -/
 theorem model_powerGain_of_full {s : Setup} {focal : RegGrid} {δx δy Δx Δy zx zy Zx Zy : ℚ} {Nx Ny Mox Moy : ℕ}
